@@ -10,6 +10,8 @@ import Driver.C12
 import Driver.C05
 import Driver.Admission
 import Driver.ExitRace
+import Driver.C19
+import Driver.C17
 
 def main (args : List String) : IO UInt32 := do
   match args with
@@ -28,6 +30,8 @@ def main (args : List String) : IO UInt32 := do
       | "c05" => Driver.C05.run ops impl
       | "admission" => Driver.Admission.run ops impl
       | "exitrace" => Driver.ExitRace.run ops impl
+      | "c19" => Driver.C19.run ops impl
+      | "c17" => Driver.C17.run ops impl
       | _ => do IO.eprintln s!"unknown model {model}"; return 2
     return (if t.diffs == 0 && t.oracleFails == 0 then 0 else 1)
   | _ =>
